@@ -37,7 +37,7 @@ def recipe(c: Check):
     st = c.run_driver("visitors", q(c.tier, 260, 4000), shards=q(c.tier, 8, 16), timeout=q(c.tier, 300, 1500))
     if st:
         cnt = c.cov.get("coq_counters", {}).get("visitors", {})
-        missing = [k for k in REQUIRED if cnt.get(k, 0) <= 0]
+        missing = [k for k in REQUIRED + REQUIRED_SYS if cnt.get(k, 0) <= 0]
         if missing and not any(b["kind"] == "correspondence-eval" for b in c.broken):
             c.broken.append(dict(kind="coverage", name="model branches never reached: " + ",".join(missing),
                                  detail="the generator did not exercise these branches; the correspondence says nothing about them"))
